@@ -1,18 +1,15 @@
 /-
-Words of a text, as the copyright properties count them: the text is cut into lines at every Python
-line boundary, each line into white-space separated tokens; a line whose only token is a full stop
-(a blank-line marker) contributes nothing.
+Words of a text, as the copyright properties count them: the white-space separated tokens of the
+text, a full stop standing alone not being a word (it is the blank-line marker of the format, and a
+list field such as `Files` re-renders a lone `.` item on a line of its own, where it is
+indistinguishable from a marker).
 -/
 import DebInspector.Py.Str
 
 namespace Spec.Words
 open Py
 
-def lineWords (l : Str) : List Str :=
-  let ws := splitWs l
-  if ws = [['.']] then [] else ws
-
-def words (v : Str) : List Str := (splitlines v).flatMap lineWords
+def words (v : Str) : List Str := (splitWs v).filter (· ≠ ['.'])
 
 /-- remove one occurrence of each element of `a` from `b`; `none` if some element is missing -/
 def removeAll : List Str → List Str → Option (List Str)
